@@ -5,17 +5,17 @@
 (* Gaussian-integer Hermitian matrices, stepping through the transcription *)
 (* of C15_Impl:                                                            *)
 (*   Compress  - dims, keep = dim_compress(dims, keep)                     *)
+(*   KeepNone  - len(keep) == 0: the trace, kept as a trivial subsystem    *)
 (*   KeepOne   - len(keep) == 1: return _trace_keep(p, dims, keep)         *)
 (*   LoseOne   - trace out the largest lost block, re-index keep, recurse  *)
 (* Property-level invariant: the matrix returned is PTrace(rho, dims,      *)
-(* keep) of the reference (C15_Defs), whatever the dimension list and the  *)
-(* kept subset.  Variant "code" is the pinned commit: TLC shows it FAILS   *)
-(* as soon as a subsystem has dimension 1 or nothing is kept (blocks of    *)
-(* accumulated size 1 are never flushed by _dim_compressor and its final   *)
-(* fall-through yields a block of size 0) - known finding KF-C15-1/2.      *)
-(* Variant "repaired" strips the dimension-1 subsystems first and returns  *)
-(* the plain trace when nothing non-trivial is kept: TLC shows this        *)
-(* smallest repair satisfies the invariant on the whole scope.             *)
+(* keep) of the reference (C15_Defs), whatever the dimension list (incl.   *)
+(* subsystems of dimension 1) and the kept subset (incl. the empty one).   *)
+(* Variant "code" is the code at the pinned commit.  Variant "prefix" is   *)
+(* the code before the repair of the size-1 defect (_dim_compressor did    *)
+(* not skip subsystems of size 1 and there was no KeepNone branch): it is  *)
+(* kept as a named deviation and TLC must REJECT it (MC_ptr_prefix.cfg),   *)
+(* counterexample dims = <<2,1>>, keep = {2} -> a 0x0 matrix.              *)
 (***************************************************************************)
 EXTENDS C15_Impl
 
@@ -25,6 +25,7 @@ VARIABLES dims0, keep0, seed, pc, p, dims, keep, depth
 vars == <<dims0, keep0, seed, pc, p, dims, keep, depth>>
 
 Rho0 == GenHerm(IProd(dims0), seed)
+Fixed == Variant = "code"
 
 Init ==
   /\ dims0 \in DimLists
@@ -37,22 +38,24 @@ Init ==
   /\ dims = dims0 /\ keep = keep0
   /\ depth = 0
 
-\* entry: the repaired variant strips dimension-1 subsystems and short-cuts an empty keep
+\* p = p if isop(p) else dot(p, dag(p))  (operators here)
 Enter ==
   /\ pc = "start"
-  /\ IF Variant = "repaired"
-     THEN LET d1 == StripOnesDims(dims) k1 == StripOnesKeep(dims, keep) IN
-          IF k1 = {} THEN /\ p' = Mat(1, 1, LAMBDA i, j : Tr(p))
-                          /\ pc' = "done" /\ dims' = <<1>> /\ keep' = {1}
-                     ELSE /\ dims' = d1 /\ keep' = k1 /\ pc' = "compress" /\ p' = p
-     ELSE pc' = "compress" /\ UNCHANGED <<p, dims, keep>>
-  /\ UNCHANGED <<dims0, keep0, seed, depth>>
+  /\ pc' = "compress"
+  /\ UNCHANGED <<dims0, keep0, seed, p, dims, keep, depth>>
 
 Compress ==
   /\ pc = "compress"
-  /\ LET c == DimCompress(dims, keep) IN dims' = c[1] /\ keep' = c[2]
+  /\ LET c == DimCompressV(dims, keep, Fixed) IN dims' = c[1] /\ keep' = c[2]
   /\ pc' = "dispatch"
   /\ UNCHANGED <<dims0, keep0, seed, p, depth>>
+
+KeepNone ==
+  /\ pc = "dispatch"
+  /\ Fixed /\ keep = {}
+  /\ p' = TraceKeepNothing(p, dims)
+  /\ pc' = "done"
+  /\ UNCHANGED <<dims0, keep0, seed, dims, keep, depth>>
 
 KeepOne ==
   /\ pc = "dispatch"
@@ -64,6 +67,7 @@ KeepOne ==
 LoseOne ==
   /\ pc = "dispatch"
   /\ Cardinality(keep) # 1
+  /\ ~(Fixed /\ keep = {})
   /\ depth < 8
   /\ LET l == LMax(dims, keep) IN
        /\ p' = TraceLose(p, dims, l)
@@ -73,21 +77,22 @@ LoseOne ==
   /\ depth' = depth + 1
   /\ UNCHANGED <<dims0, keep0, seed>>
 
-Next == Enter \/ Compress \/ KeepOne \/ LoseOne
+Next == Enter \/ Compress \/ KeepNone \/ KeepOne \/ LoseOne
 Spec == Init /\ [][Next]_vars
 
 (* ---- invariants ---- *)
 \* property level: the reduced state of the reference
 PtrExact == pc = "done" => SameMat(p, PTrace(Rho0, dims0, keep0))
 PtrShape == pc = "done" => p.r = IProd(Sub(dims0, SortedSeq(keep0))) /\ p.c = p.r
-\* the documented contract of dim_compress on its domain (no dimension-1 subsystem):
-\* size preserved, kept size preserved, marked and unmarked blocks alternate
+\* the contract of dim_compress: size preserved, kept size preserved, marked and unmarked blocks
+\* alternate, no block of size < 2 (subsystems of size 1 are merged away)
 CompressFaithful ==
-  (pc = "dispatch" /\ \A k \in 1..Len(dims0) : dims0[k] > 1 /\ depth = 0 /\ keep0 # {}) =>
+  (pc = "dispatch" /\ depth = 0) =>
      /\ IProd(dims) = IProd(dims0)
      /\ IProd(Sub(dims, SortedSeq(keep))) = IProd(Sub(dims0, SortedSeq(keep0)))
      /\ \A k \in 1..(Len(dims) - 1) : (k \in keep) # ((k + 1) \in keep)
+     /\ \A k \in 1..Len(dims) : dims[k] > 1
 \* the description always matches the matrix it describes
-DescriptionFits == pc \in {"compress"} /\ Variant = "repaired" => IProd(dims) = p.r
+DescriptionFits == pc = "compress" => IProd(dims) = p.r
 Terminates == depth < 8
 =============================================================================
